@@ -21,7 +21,8 @@ RULE = ("real HasTraits classes for the four prefix styles (same name, explicit 
         "bottom-up / top-down / partial / absent wiring of the chain: assign through any object and attribute "
         "(valid, rejected, k-th-operation-fails validators), delete, re-point the delegate (object or None), read; "
         "after every operation the values read through every object, the handler events on every attribute "
-        "(on_trait_change and observe), the swallowed handler exceptions and the __listener_traits__ / hooked "
+        "(on_trait_change and observe; a crc32-selected half of the cases on classes whose instances are falsy: "
+        "__bool__ -> False or __len__ -> 0), the swallowed handler exceptions and the __listener_traits__ / hooked "
         "object of every forwarder are compared with the Lean model; corpus: the witness histories of the Lean "
         "refutations (F18-F20), the `del`-raises-after-deleting branches, chains of 99 / 100 / 101 levels (the "
         "100-step recursion limit); quick: 2000 histories for each of the 8 style x kind shapes + 500 for each of 8 "
@@ -368,7 +369,10 @@ def run_impl(case):
                            main=True, locked=False)
     try:
         try:
-            w = D.World(classes, objects, validators)
+            falsy = D.falsy_mode(case)
+            if falsy:
+                tags.add("falsy-objects:" + falsy)
+            w = D.World(classes, objects, validators, falsy)
         except Exception as e:
             hits = []
             if any(a.raw == "*" and c.pfx is None for c in classes for a in c.attrs if a.kind != "T"):
